@@ -63,9 +63,10 @@ def model_class(nv, tracer=False, lags=0, leads=0):
     endo = [f'X{i + 1}' for i in range(nv)]
 
     class Scripted(fsic.BaseModel):
-        ENDOGENOUS = endo + ['W']
+        ENDOGENOUS = (endo + ['W']) if nv > 0 else []     # nv = 0: a model with no endogenous variable at all
+        EXTRA = ['W'] if nv == 0 else []
         EXOGENOUS = ['Z']
-        NAMES = ENDOGENOUS + EXOGENOUS
+        NAMES = ENDOGENOUS + EXOGENOUS + EXTRA
         CHECK = endo
         LAGS = lags
         LEADS = leads
@@ -253,7 +254,7 @@ def run_one(rec, variant):
     # the non-check endogenous variable W: only the offset copy may change it, and only at t
     src = tpos + cfg['offset']
     feasible = tpos - cfg.get('lags', 0) >= 0 and tpos + cfg.get('leads', 0) < L
-    applied = cfg['offset'] != 0 and cfg['min'] <= cfg['max'] and feasible and 0 <= src < L
+    applied = cfg['offset'] != 0 and cfg['min'] <= cfg['max'] and feasible and 0 <= src < L and len(cfg['c0']) > 0
     exp_w = before['W'][src] if applied else before['W'][tpos]
     if not same(after['W'][tpos], exp_w):
         diffs.append('noncheck_endogenous')
